@@ -388,6 +388,17 @@ where
     }
 
     fn step(&self, solver: &Solver<U, Self>, lazy: Lazy<U, Self>) -> Stream<U, Self> {
+        #[cfg(terohuttunen_proto_vulcan_verif)]
+        let _verif_step_guard = crate::verif_sim::enter_step(match &lazy {
+            Lazy::Bind(_, _) => 0,
+            Lazy::MPlus(_, _) => 1,
+            Lazy::Pause(_, _) => 2,
+            Lazy::BindDFS(_, _) => 3,
+            Lazy::MPlusDFS(_, _) => 4,
+            Lazy::PauseDFS(_, _) => 5,
+            Lazy::Delay(_) => 6,
+            Lazy::Iterator(_) => 7,
+        });
         match lazy {
             Lazy::MPlus(s1, s2) => {
                 let stream = self.step(solver, *s1.0);
